@@ -174,9 +174,18 @@ func run1(t *testing.T, c Case) (res Result) {
 					return lab.Deviation{Err: errInjected}, true
 				}
 			case "AcquireExisting":
-				if r.choose("AcquireExisting", 2) == 1 {
+				switch r.choose("AcquireExisting", 3) {
+				case 1:
 					r.log = append(r.log, "AcquireExisting->error")
 					return lab.Deviation{Err: errInjected}, true
+				case 2:
+					// between the hand-off and the take-over somebody else became the holder of the lease
+					r.log = append(r.log, "AcquireExisting->held-by-someone-else")
+					if fake != nil {
+						fake.Steal(consulKey) // the truthful answer of the endpoint is now "not acquired"
+						return lab.Deviation{}, false
+					}
+					return lab.Deviation{Err: litefs.ErrPrimaryExists}, true
 				}
 			case "Renew":
 				if r.sticky[node] {
@@ -258,12 +267,12 @@ func run1(t *testing.T, c Case) (res Result) {
 		}
 		var M *lab.Node
 		if c.Cfg.Topology != "alone" {
-			cl.AddNode("M", c.Cfg.Topology == "with-primary-M", func(cfg *lab.NodeConfig) { cfg.ID = 0xBBBB; useConsul(cfg) })
+			cl.AddNode("M", strings.HasPrefix(c.Cfg.Topology, "with-primary-M"), func(cfg *lab.NodeConfig) { cfg.ID = 0xBBBB; useConsul(cfg) })
 			if res.Harness != "" {
 				return
 			}
 			M = cl.Nodes["M"]
-			if c.Cfg.Topology == "with-primary-M" {
+			if strings.HasPrefix(c.Cfg.Topology, "with-primary-M") {
 				// M is primary first, with the service's cluster ID as its own (or generating one).
 				if c.Cfg.ServiceID != "" {
 					_ = os.MkdirAll(M.Cfg.Dir, 0o777)
@@ -445,12 +454,22 @@ func run1(t *testing.T, c Case) (res Result) {
 		for now := time.Duration(0); now < horizon; now += step {
 			time.Sleep(step)
 			synctest.Wait()
+			if c.Cfg.Topology == "with-primary-M-handoff" && now == 5*time.Second {
+				// part of this configuration, not a deviation: the primary M hands its lease to N five seconds in
+				r.log = append(r.log, "t=5s M.Handoff(N) [scheduled]")
+				if M.Running() && M.Store.IsPrimary() {
+					_ = M.Store.Handoff(context.Background(), N.Store.ID())
+				}
+				synctest.Wait()
+			} else
 			// environment decisions every 5 fake seconds
 			if now > 0 && now%(5*time.Second) == 0 && events < 6 {
 				events++
 				opts := 4
 				if M == nil {
 					opts = 3
+				} else if strings.HasPrefix(c.Cfg.Topology, "with-primary-M") {
+					opts = 5 // M hands its lease to N
 				}
 				switch r.choose("env", opts) {
 				case 1:
@@ -461,6 +480,11 @@ func run1(t *testing.T, c Case) (res Result) {
 					err := N.Store.Handoff(context.Background(), 0xDEAD)
 					if err == nil {
 						r.viol("C08/handoff-to-unknown", "Handoff to a node that is not connected succeeded")
+					}
+				case 4:
+					r.log = append(r.log, fmt.Sprintf("t=%s M.Handoff(N)", now))
+					if M.Running() && M.Store.IsPrimary() {
+						_ = M.Store.Handoff(context.Background(), N.Store.ID())
 					}
 				case 3:
 					r.log = append(r.log, fmt.Sprintf("t=%s Handoff(M)", now))
@@ -518,7 +542,7 @@ func run1(t *testing.T, c Case) (res Result) {
 		}
 		// N never applied anything from a foreign cluster
 		if c.Cfg.StoredID != "" && c.Cfg.ServiceID == "Y" && M != nil {
-			if db := N.DB("db"); db != nil && db.Pos().TXID > 0 && c.Cfg.Topology == "with-primary-M" {
+			if db := N.DB("db"); db != nil && db.Pos().TXID > 0 && strings.HasPrefix(c.Cfg.Topology, "with-primary-M") {
 				r.viol("C08/replicated-from-foreign-cluster", "N (cluster %s) holds data at %s although the only primary belongs to cluster %s", idX, db.Pos(), idY)
 			}
 		}
@@ -589,6 +613,10 @@ func TestCheck(t *testing.T) {
 				}
 				for _, topo := range topos {
 					cfgs = append(cfgs, Config{Candidate: cand, StoredID: stored, ServiceID: svcID, Topology: topo})
+				}
+				if cand && stored == "" && svcID == "" {
+					// N joins the primary M, which hands it the lease five seconds later
+					cfgs = append(cfgs, Config{Candidate: cand, StoredID: stored, ServiceID: svcID, Topology: "with-primary-M-handoff"})
 				}
 			}
 		}
